@@ -94,7 +94,7 @@ def generate(tier, rng):
     for k in range(1, depth + 1):
         for seq in itertools.product(alpha, repeat=k):
             yield {"ops": [list(o) for o in seq]}
-    for i in range(300 if tier == "quick" else 6000):
+    for i in range(1200 if tier == "quick" else 6000):
         yield {"ops": rand_history(rng, rng.randint(5, 40))}
 
 
